@@ -520,6 +520,8 @@ EVALUATORS = [
     (EE, 'ErrorEstimator.sobolev_time'),
     (EE, 'ErrorEstimator.__integrate_h_1_2'),
     (EE, 'ErrorEstimator.__integrate_h_1_4'),
+    ('src/initial_mesh.py', 'InitialMesh.vertex_from_coords'),
+    ('src/mesh.py', 'Prolongate'),
 ]
 
 
@@ -647,6 +649,123 @@ def _check_dict_memo(prog, report, fi, q, attr, node):
                 construct='%s: memo %s key misses %s' % (q, D, p_))
     if need_unique:
         meshrules.check_leafbook(prog, report)
+    # the value may also depend on state of the object itself
+    reads = set()
+    for m in own_nodes(fi.node):
+        if isinstance(m, ast.Attribute) and isinstance(
+                m.ctx, ast.Load) and text(m.value) == 'self' and \
+                m.attr != attr and not m.attr.startswith('__'):
+            reads.add(m.attr)
+    cls = fi.cls
+    stale = []
+    if cls is not None and reads:
+        for mname, mfi in cls.methods.items():
+            if mfi is fi or mname == '__init__':
+                continue
+            writes = set()
+            clears = False
+            for m in ast.walk(mfi.node):
+                if isinstance(m, ast.Attribute) and text(
+                        m.value) == 'self':
+                    par_store = isinstance(m.ctx, (ast.Store, ast.Del))
+                    if par_store and m.attr in reads:
+                        writes.add(m.attr)
+                if isinstance(m, ast.Call) and isinstance(
+                        m.func, ast.Attribute) and m.func.attr in (
+                            'append', 'extend', 'insert', 'remove', 'pop',
+                            'add', 'update', 'clear', 'setdefault') and \
+                        isinstance(m.func.value, ast.Attribute) and text(
+                            m.func.value.value) == 'self':
+                    if m.func.value.attr in reads:
+                        writes.add(m.func.value.attr)
+                    if m.func.value.attr == attr and m.func.attr in (
+                            'clear', 'pop'):
+                        clears = True
+                if isinstance(m, ast.Assign) and any(
+                        text(t) == D for t in m.targets):
+                    clears = True
+                if isinstance(m, ast.Subscript) and isinstance(
+                        m.ctx, ast.Store) and isinstance(
+                            m.value, ast.Attribute) and text(
+                                m.value.value) == 'self' and \
+                        m.value.attr in reads:
+                    writes.add(m.value.attr)
+            if writes and not clears:
+                stale.append((mname, sorted(writes)))
+    report.check(
+        not stale, 'R-memo', '%s memo %s invalidation' % (q, D), where,
+        'the routine reads %s of the object; %s' % (
+            sorted(reads) or 'no state',
+            'every method that changes them resets the memo' if not stale
+            else '%s changes %s without resetting the memo: an answer '
+            'remembered before the change is returned after it' %
+            (stale[0][0], stale[0][1])),
+        construct='%s: memo %s not invalidated' % (q, D))
+
+
+def check_global_memos(prog, report, files):
+    """A module-level dictionary that functions write into is a memo that
+    outlives every mesh, curve and operator of the process.  Its key must
+    identify the objects the value was computed from: an object itself (or
+    its glob_idx, with index uniqueness as an obligation); a key made of
+    derived values only (lengths, type names, coordinates, sizes) is shared
+    by different objects that happen to agree on them."""
+    from . import meshrules
+    n = 0
+    for rel in sorted(files):
+        m = prog.module(rel)
+        dicts = {k for k, v in m.consts.items()
+                 if isinstance(v, (ast.Dict, ast.Call)) and (
+                     isinstance(v, ast.Dict) and not v.keys
+                     or isinstance(v, ast.Call) and text(v.func) in (
+                         'dict', 'OrderedDict', 'defaultdict')
+                     and not v.args)}
+        if not dicts:
+            continue
+        for q, fi in m.funcs.items():
+            if not isinstance(fi.node, (ast.FunctionDef,
+                                        ast.AsyncFunctionDef)):
+                continue
+            env = {}
+            for st in ast.walk(fi.node):
+                if isinstance(st, ast.Assign) and len(st.targets) == 1 and \
+                        isinstance(st.targets[0], ast.Name):
+                    env.setdefault(st.targets[0].id, st.value)
+            for st in ast.walk(fi.node):
+                if not (isinstance(st, ast.Assign) and len(st.targets) == 1
+                        and isinstance(st.targets[0], ast.Subscript)
+                        and isinstance(st.targets[0].value, ast.Name)
+                        and st.targets[0].value.id in dicts):
+                    continue
+                if isinstance(st.targets[0].value, ast.Name) and isinstance(
+                        st.targets[0].slice, ast.Constant):
+                    continue
+                n += 1
+                D = st.targets[0].value.id
+                from .absint import subst
+                parts = [subst(x, env)
+                         for x in _key_parts(st.targets[0].slice)]
+                objects = [p_ for p_ in parts if isinstance(p_, ast.Name)
+                           or (isinstance(p_, ast.Attribute)
+                               and p_.attr == 'glob_idx')]
+                if any(isinstance(p_, ast.Attribute) for p_ in objects):
+                    meshrules.check_leafbook(prog, report)
+                report.check(
+                    bool(objects), 'R-memo', '%s memo %s' % (q, D),
+                    fi.where(st),
+                    'a module-level memo keyed on `%s`: %s' % (
+                        text(st.targets[0].slice)[:60],
+                        'identifies an object' if objects else
+                        'derived values only -- another mesh / curve / '
+                        'list that agrees on them is answered from the '
+                        'memo'),
+                    construct='%s: module-level memo %s keyed on derived '
+                    'values' % (q, D))
+    if n == 0:
+        report.ok('R-memo', 'no module-level memo', ', '.join(sorted(files)),
+                  'no function writes into a module-level dictionary (the '
+                  'pool hand-over through globals() is covered by '
+                  'R-handover)')
 
 
 def check_memo(prog, report, files=None):
